@@ -11,7 +11,7 @@ PROP = "C01"
 TECHNIQUE = (
     "exhaustive choice-tree exploration (E1) of create/map under a scripted RandomSource, all genotypes over a "
     "gene alphabet, and explicit-state search (E2) over create/mutate/crossover, run on the real code; "
-    "oracle = independent structural well-typedness against the grammar spec"
+    "oracle = independent structural well-typedness against the grammar spec; CooperativeGP over pairs of grammars (each position of the scoring function receives programs of its own grammar); stack genomes from explicit-state search of the stack machine"
 )
 RULE = (
     "work unit = grammar spec x representation x decider x depth; every answer of every random draw (full range "
